@@ -140,14 +140,18 @@ def item_fixer_defaults(repo):
     f = _find_func(tree, "fix_illegal_cell_value")
     for n in ast.walk(f):
         if isinstance(n, ast.Dict):
-            return [[ast.literal_eval(k), ast.unparse(v)] for k, v in zip(n.keys, n.values)]
+            # a dict literal: only the key -> value pairs matter, so they are sorted by key (re-ordering the entries
+            # in the source does not change the translated constant)
+            return sorted([ast.literal_eval(k), ast.unparse(v)] for k, v in zip(n.keys, n.values))
     raise ValueError("no dict")
 
 
 def item_unit_from_dtype_kind(repo):
     tree = _parse(repo, "pdtable/table_metadata.py")
     d = ast.literal_eval(_find_assign(tree, "_unit_from_dtype_kind")[-1])
-    return [[k, v] for k, v in d.items()]
+    # a dict literal: only the key -> value pairs matter (keys are unique), so the pairs are sorted by key and
+    # re-grouping the entries in the source does not change the translated constant
+    return [[k, v] for k, v in sorted(d.items())]
 
 
 def item_units_special(repo):
@@ -560,7 +564,9 @@ def item_with_frames(repo):
         helpers = {n.name: n for n in tree.body
                    if isinstance(n, ast.FunctionDef) and n.name.startswith("_") and n is not fn}
         points, bare, fors, closes = _c19_scan(fn, helpers)
-        out.append([(cls + "." if cls else "") + name, points, bare, fors, closes])
+        # the order of the entries carries no meaning for the model (points in exclusive branches, independent calls):
+        # each list is sorted, so that re-ordering branches or statements does not change the table
+        out.append([(cls + "." if cls else "") + name, sorted(points), sorted(bare), sorted(fors), sorted(closes)])
     return out
 
 
@@ -639,13 +645,11 @@ def item_excel_layout(repo):
                   and isinstance(n.value, ast.Constant) and type(n.value.value) is int)
     stmts = sorted(_norm_text(n, ls) for n in ast.walk(st) if isinstance(n, (ast.Assign, ast.AugAssign))
                    and not isinstance(n.value, ast.Constant))
-    # _style_cells: the attributes assigned on the loop variable(s); any `.value` store in the module
-    sc = _find_func(tree, "_style_cells")
-    loop_vars = {t.id for n in ast.walk(sc) if isinstance(n, ast.For) for t in ast.walk(n.target)
-                 if isinstance(t, ast.Name)}
-    writes = sorted({t.attr for n in ast.walk(sc) if isinstance(n, (ast.Assign, ast.AugAssign, ast.AnnAssign))
+    # the attributes assigned on a plain name anywhere in the module (the style loop's `cell.font = …`, wherever a
+    # refactoring puts it: helper functions, cached style objects); any `.value` store in the module
+    writes = sorted({t.attr for n in ast.walk(tree) if isinstance(n, (ast.Assign, ast.AugAssign, ast.AnnAssign))
                      for t in (n.targets if isinstance(n, ast.Assign) else [n.target])
-                     if isinstance(t, ast.Attribute) and isinstance(t.value, ast.Name) and t.value.id in loop_vars})
+                     if isinstance(t, ast.Attribute) and isinstance(t.value, ast.Name)})
     value_writes = sorted({_norm_text(t, set()) for n in ast.walk(tree)
                            if isinstance(n, (ast.Assign, ast.AugAssign, ast.AnnAssign))
                            for t in (n.targets if isinstance(n, ast.Assign) else [n.target])
